@@ -350,6 +350,97 @@ impl<C: Configuration> crate::table::memo::Memo for Memo<C> {
         self.header.remove_outputs(zalsa, executor);
     }
 
+    #[cfg(salsa_rs_salsa_verif)]
+    fn verif_dump(&self) -> String {
+        use crate::zalsa_local::QueryEdgeKind;
+        let header = &self.header;
+        let revisions = &header.revisions;
+        let fmt_key = |key: DatabaseKeyIndex| {
+            format!(
+                "{}:{}:{}",
+                key.ingredient_index().as_u32(),
+                key.key_index().index(),
+                key.key_index().generation()
+            )
+        };
+        let (kind, edges) = match revisions.origin() {
+            QueryOriginRef::Assigned(by) => ("assigned", vec![format!("by:{}", fmt_key(by))]),
+            QueryOriginRef::Derived(edges) => (
+                "derived",
+                edges
+                    .iter()
+                    .map(|edge| {
+                        let tag = match edge.kind() {
+                            QueryEdgeKind::Input => "i",
+                            QueryEdgeKind::Output => "o",
+                        };
+                        format!("{tag}:{}", fmt_key(edge.key()))
+                    })
+                    .collect(),
+            ),
+            QueryOriginRef::DerivedUntracked(edges) => (
+                "untracked",
+                edges
+                    .iter()
+                    .map(|edge| {
+                        let tag = match edge.kind() {
+                            QueryEdgeKind::Input => "i",
+                            QueryEdgeKind::Output => "o",
+                        };
+                        format!("{tag}:{}", fmt_key(edge.key()))
+                    })
+                    .collect(),
+            ),
+        };
+        let heads: Vec<String> = revisions
+            .cycle_heads()
+            .iter()
+            .map(|head| {
+                format!(
+                    "{}@{}",
+                    fmt_key(head.database_key_index),
+                    head.iteration.load().iteration_as_u32()
+                )
+            })
+            .collect();
+        let structs: Vec<String> = revisions
+            .tracked_struct_ids()
+            .iter()
+            .map(|(identity, id)| {
+                format!(
+                    "{}:{}:{}",
+                    identity.ingredient_index().as_u32(),
+                    id.index(),
+                    id.generation()
+                )
+            })
+            .collect();
+        #[cfg(feature = "accumulator")]
+        let acc = format!(
+            " acc={} accin={}",
+            revisions.accumulated().is_some() as u8,
+            revisions.accumulated_inputs.load().is_any() as u8
+        );
+        #[cfg(not(feature = "accumulator"))]
+        let acc = String::new();
+        format!(
+            "name={} has_value={} verified_at={} changed_at={} dur={} origin={} edges=[{}] final={} iter={} ccount={} heads=[{}] structs=[{}]{}",
+            C::DEBUG_NAME,
+            self.value.is_some() as u8,
+            header.verified_at.load().as_usize(),
+            revisions.changed_at.as_usize(),
+            revisions.durability.index(),
+            kind,
+            edges.join(","),
+            revisions.verified_final.load(Ordering::Relaxed) as u8,
+            revisions.iteration().iteration_as_u32(),
+            revisions.iteration().cancellation_count(),
+            heads.join(","),
+            structs.join(","),
+            acc
+        )
+    }
+
     #[cfg(feature = "salsa_unstable")]
     fn memory_usage(&self) -> crate::database::MemoInfo {
         let size_of = std::mem::size_of::<Memo<C>>() + self.header.revisions.allocation_size();
